@@ -265,7 +265,15 @@ class Constructor:
         if '_yatiml_extra' in known_keys:
             known_keys.remove('_yatiml_extra')
 
+        seen_keys = set()    # type: set
         for key_node, value_node in node.value:
+            if (isinstance(key_node, yaml.ScalarNode)
+                    and key_node.value in seen_keys):
+                # also for keys we would otherwise pass on as extra
+                # attributes, where the last one would silently win
+                raise RecognitionError(
+                    '{}\nFound a key "{}" more than once.'.format(
+                        key_node.start_mark, key_node.value))
             if not isinstance(key_node, yaml.ScalarNode):
                 raise RecognitionError(
                     '{}\nExpected a string here.'.format(
@@ -275,6 +283,7 @@ class Constructor:
                     '{}\nFound a key "{}", which is not a string. Only'
                     ' strings are allowed as keys here.').format(
                         key_node.start_mark, key_node.value))
+            seen_keys.add(key_node.value)
             if key_node.value not in known_keys:
                 strip_tags(self.__loader, value_node)
 
